@@ -566,9 +566,13 @@ def rule_simd(rows, prop):
     n_packed = n_tail = n_seed = n_uncovered = 0
     fns = [r for r in rows if "fn" in r]
     lambdas = {}
+    lambda_insts = {}
     for r in fns:
         if r.get("lambda"):
-            lambdas.setdefault(r.get("parent_sig", ""), {})["lambda@%d" % r["line"]] = r
+            if r.get("generic_inst"):
+                lambda_insts.setdefault(r.get("parent_sig", ""), []).append(r)   # instantiated call operators of generic lambdas
+            else:
+                lambdas.setdefault(r.get("parent_sig", ""), {})["lambda@%d" % r["line"]] = r
     for r in fns:
         short = r["fn"].split("::")[-1]
         if r.get("lambda") or not short.startswith("eval_") or not r.get("cfg"):
@@ -614,6 +618,15 @@ def rule_simd(rows, prop):
                     findings.append(finding("R-SIMDRANGE.tail", prop, r, f["a"], "scalar tail store %s is not dominated by the true edge of i < size; guards seen: %s" % (f["a"], guards[:4]), f.get("line")))
         if short == "eval_reduction":
             lams = lambdas.get(r.get("sig", ""), {})
+            # partial packs of an axis reduction: every padding lane must hold the identity before the packed op
+            for lr in lambda_insts.get(r.get("sig", ""), []):
+                if not lr.get("cfg") or not any(x["k"] == "call" and re.search(r"loadu\(%padded_inp\)", x["b"]) for x in lr["facts"]):
+                    continue
+                n_seed += 1
+                fills = [x for x in lr["facts"] if x["k"] == "assign" and x["a"] == "%padded_inp[%i]" and re.fullmatch(r"%identity|this\.view\.op\.identity\(\)|.*::identity\(\)", x["b"])]
+                ok = any(("(%i<%n_simd_pack)", 1) in [(g_["cond"].replace(" ", ""), g_["pol"]) for g_ in expand_guards(x.get("g", []))] for x in fills)
+                if not ok:
+                    findings.append(finding("R-SIMDID.padding", prop, lr, "padded_inp", "padding lanes of a partial pack are not filled with the reduction identity up to n_simd_pack before the packed load (lanes past the data would take part in the reduction with value 0)", lr.get("line")))
             sources = []
             for f in r["facts"]:
                 if f["k"] != "call" or "::set1(" not in f["b"] and not f["a"].endswith("set1"):
@@ -641,6 +654,52 @@ def rule_simd(rows, prop):
     return findings, inst, samples, n_uncovered
 
 
+def simd_op_cores(rows):
+    out = {}
+    for r in rows:
+        if "fn" not in r or not r["fn"].endswith("::eval") or "ufunc_simd_t<" not in r["fn"]:
+            continue
+        m = re.search(r"ufunc_simd_t<(?:nmtools::)?(?:view::)?(?:fun::)?(\w+?)(?:_t)?[<,>]", r["fn"])
+        if not m:
+            continue
+        name = m.group(1)
+        params = [p_["name"] for p_ in r["params"]]
+        locs, assigned = single_def_locals(r)
+        reassigned_param = any(f["k"] == "assign" and f["a"].startswith("$") for f in r["facts"])
+        fields = {f["a"]: f["b"] for f in r["facts"] if f["k"] == "field"}
+        cores = []
+        for f in r["facts"]:
+            if f["k"] != "return":
+                continue
+            e = subst_locals(f["a"], locs)
+            e = re.sub(r"this\.(\w+)\b(?!\()", lambda m_: fields.get(m_.group(1), m_.group(0)), e)
+            for i, pn in enumerate(params):
+                e = re.sub(r"\$" + re.escape(pn) + r"\b", "$%d" % i, e)
+            cores.append(e)
+        out[name] = dict(cores=sorted(set(cores)), multi=bool(assigned) or reassigned_param, row=r)
+    return out
+
+
+def rule_simdop(rows, prop):
+    tbl = load_table("simd_table.json")
+    findings, samples, n = [], [], 0
+    got = simd_op_cores(rows)
+    for name, d in sorted(got.items()):
+        if name in tbl["not_covered"]:
+            continue
+        n += 1
+        if name not in tbl["ops"]:
+            findings.append(finding("R-SIMDOP", prop, d["row"], name, "SIMD op for '%s' has no entry in the oracle tools/simd_table.json" % name)); continue
+        for e in d["cores"]:
+            if e not in tbl["ops"][name]["cores"]:
+                findings.append(finding("R-SIMDOP", prop, d["row"], e, "packed operation of '%s' is %s; the reviewed lane-wise definition (same as the scalar op) is %s" % (name, e, tbl["ops"][name]["cores"])))
+        if len(samples) < 3:
+            samples.append("R-SIMDOP %s: %s" % (name, d["cores"][0] if d["cores"] else ""))
+    missing = [k for k in tbl["ops"] if k not in got]
+    broken = ["R-SIMDOP: oracle entries without a SIMD op in the tree: %s" % missing] if missing else []
+    return findings, n, samples, broken
+
+
 def comp_simd(prop, tier, comp, work):
     t0 = time.time()
     tu = os.path.join(VERIF, "drivers", "simd_inst.cpp")
@@ -649,6 +708,12 @@ def comp_simd(prop, tier, comp, work):
     if err:
         out["broken"].append(err); return out
     f, inst, samples, unc = rule_simd(rows, prop)
+    tu2 = os.path.join(work, "simdop.cpp"); open(tu2, "w").write('#include "nmtools/array/eval/simd/ufunc.hpp"\n')
+    rows2, err2, _ = run_nmlint(tu2, filters=["eval/simd/ufunc.hpp"])
+    if err2:
+        out["broken"].append(err2); return out
+    f2, n2, s2, b2 = rule_simdop(rows2, prop)
+    f += f2; inst["R-SIMDOP"] = n2; samples += s2; out["broken"] += b2
     tot = sum(inst.values())
     out.update(findings=f, instances=inst, evaluations=tot, distinct_nontrivial=tot - len(f), samples=samples + ["(not decided: %d packed accesses with enumerator-computed offsets)" % unc], wall_s=round(time.time() - t0, 2))
     return out
@@ -997,7 +1062,9 @@ def rule_div(rows, prop):
                 if role:
                     sup = role.get("requires_return_guard")
                     if sup:
-                        has = any(x["k"] == "return" and "Nothing" in x["a"] and any(g["pol"] == 1 and sup.replace(" ", "") in [p_.replace(" ", "") for p_ in split_top(g["cond"], "||")] for g in expand_guards(x.get("g", []))) for x in r["facts"])
+                        # the validation lives in the enclosing function (the division may sit in one of its lambdas)
+                        owners = [q for q in rows if q.get("fn") == fnshort and q.get("cfg")] if r.get("lambda") else [r]
+                        has = any(x["k"] == "return" and "Nothing" in x["a"] and any(g["pol"] == 1 and sup.replace(" ", "") in [p_.replace(" ", "") for p_ in split_top(g["cond"], "||")] for g in expand_guards(x.get("g", []))) for q in owners for x in q["facts"])
                         if has:
                             ok = "role: " + role["reason"]
                         else:
@@ -1195,6 +1262,55 @@ def comp_eval(prop, tier, comp, work):
 
 
 # --------------------------------------------------------------------------------------------
+# R-EQSHAPE (C18) on instantiations of utils::detail::isequal / isclose that contain an element loop:
+# the loop is entered only through the false edges of run-time tests (not asserts) of length - for index
+# arrays - resp. dimension AND shape equality - for ndarrays -, whose true edges return false.
+# --------------------------------------------------------------------------------------------
+def rule_eqshape(rows, prop):
+    findings, samples, n = [], [], 0
+    seen = set()
+    for r in rows:
+        if "fn" not in r or not r.get("cfg") or r["fn"] not in ("nmtools::utils::detail::isequal", "nmtools::utils::detail::isclose"):
+            continue
+        loops = [f for f in r["facts"] if f["k"] == "loop"]
+        if not loops or r.get("sig") in seen:
+            continue
+        seen.add(r.get("sig")); n += 1
+        rets_false = [f for f in r["facts"] if f["k"] == "return" and f["a"] == "false"]
+        def has_ret(pattern):
+            return any(any(g["pol"] == 1 and re.fullmatch(pattern, g["cond"].replace(" ", "")) for g in expand_guards(f.get("g", []))) for f in rets_false)
+        def loop_after(pattern):
+            return all(any(g["pol"] == 0 and re.fullmatch(pattern, g["cond"].replace(" ", "")) for g in expand_guards(l.get("g", []))) for l in loops)
+        index_flavour = any(l["b"].replace(" ", "") == "(%i<nmtools::len($t))" for l in loops)
+        if index_flavour:
+            pat = r"\(nmtools::len\(\$t\)!=nmtools::len\(\$u\)\)"
+            if not (has_ret(pat) and loop_after(pat)):
+                findings.append(finding("R-EQSHAPE.length", prop, r, loops[0]["b"], "element loop over index arrays is not preceded by a run-time length test returning false (an assert does not count)", loops[0].get("line")))
+        else:
+            pdim = r"\(%t_dim!=%u_dim\)|\(nmtools::len\(%t_shape\)!=nmtools::len\(%u_shape\)\)"
+            pshape = r"\(!(?:::)?nmtools::utils::(?:detail::)?isequal\(%t_shape,%u_shape\)\)"
+            if not (has_ret(pdim) and loop_after(pdim)):
+                findings.append(finding("R-EQSHAPE.dim", prop, r, loops[0]["b"], "element loop over ndarrays is not preceded by a run-time dimension test returning false", loops[0].get("line")))
+            if not has_ret(pshape):
+                findings.append(finding("R-EQSHAPE.shape", prop, r, loops[0]["b"], "element loop over ndarrays is not preceded by a run-time shape-equality test returning false in this instantiation (e.g. (2,3) vs (3,2) with equal element count)", loops[0].get("line")))
+        if len(samples) < 3:
+            samples.append("R-EQSHAPE %s" % r.get("sig", "")[:160])
+    return findings, n, samples
+
+
+def comp_eqshape(prop, tier, comp, work):
+    t0 = time.time()
+    tu = os.path.join(VERIF, "drivers", "maybe_inst.cpp")
+    rows, err, cmd = run_nmlint(tu, filters=["/include/nmtools/utility/is"], inst=True, cfg=True)
+    out = dict(broken=[], units=1, functions=len(rows), cmd=cmd)
+    if err:
+        out["broken"].append(err); return out
+    f, n, samples = rule_eqshape(rows, prop)
+    out.update(findings=f, instances={"R-EQSHAPE": n}, evaluations=n, distinct_nontrivial=n - len(set(x["instantiation"] for x in f)), samples=samples, wall_s=round(time.time() - t0, 2))
+    return out
+
+
+# --------------------------------------------------------------------------------------------
 # driver
 # --------------------------------------------------------------------------------------------
 def run(prop, tier, spec, jobs=16):
@@ -1234,4 +1350,4 @@ def comp_fwd_array(prop, tier, comp, work):
     return out
 
 
-RULES = {"R-FWD.array": comp_fwd_array, "R-FWD.functional": comp_fwd_functional, "R-UFUNC": comp_ufunc, "R-KSIB": comp_ksib, "R-SIMD": comp_simd, "R-CONSTBRANCH": comp_constbranch, "R-TRAITPROV": comp_traitprov, "R-MAYBE-DIV": comp_maybe_div, "R-OWN": comp_own, "R-EVAL": comp_eval}
+RULES = {"R-FWD.array": comp_fwd_array, "R-FWD.functional": comp_fwd_functional, "R-UFUNC": comp_ufunc, "R-KSIB": comp_ksib, "R-SIMD": comp_simd, "R-CONSTBRANCH": comp_constbranch, "R-TRAITPROV": comp_traitprov, "R-MAYBE-DIV": comp_maybe_div, "R-OWN": comp_own, "R-EVAL": comp_eval, "R-EQSHAPE": comp_eqshape}
